@@ -34,6 +34,9 @@ enum Case {
     SparseSupports { bits: BitsDesc, mask: u8 },
     WmSupports { values: Vec<u64>, masks: Vec<u8> },
     DocBasic(Vec<u64>, Vec<u8>, String),
+    /// Direction 1 for the buffered file writers: the file they leave is a document-conforming integer / raw vector.
+    WriterInt { width: usize, items: usize, buf_items: Option<usize>, close: bool },
+    WriterRaw { bits: usize, buf_len: Option<usize>, close: bool },
 }
 
 fn kind_of(d: &Desc) -> String {
@@ -251,11 +254,99 @@ fn lib_load<T: simple_sds::serialize::Serialize>(file: &[u8]) -> Result<T, Strin
     }
 }
 
+/// The files of the buffered writers, decoded by the document's reader.
+fn check_writer_file(ctx: &mut Ctx, c: &Case) {
+    use simple_sds::int_vector::IntVectorWriter;
+    use simple_sds::ops::Push;
+    use simple_sds::raw_vector::{PushRaw, RawVectorWriter};
+    let case = || serde_json::to_value(c).unwrap();
+    let path = ctx.scratch.join("c07-writer.bin");
+    let _ = std::fs::remove_file(&path);
+    let value = |i: usize| (i as u64).wrapping_mul(0x9E37_79B9_7F4A_7C15) ^ 0x0123_4567_89AB_CDEF;
+    match c {
+        Case::WriterInt { width, items, buf_items, close } => {
+            let mask = if *width == 64 { !0u64 } else { (1u64 << width) - 1 };
+            let done = guard(|| {
+                let mut w = match buf_items {
+                    Some(b) => IntVectorWriter::with_buf_len(&path, *width, *b),
+                    None => IntVectorWriter::new(&path, *width),
+                }
+                .map_err(|e| e.to_string())?;
+                for i in 0..*items {
+                    w.push(value(i));
+                }
+                if *close {
+                    w.close().map_err(|e| e.to_string())?;
+                }
+                drop(w);
+                Ok::<(), String>(())
+            });
+            if !ctx.expect(|| "IntVectorWriter.file[written]".to_string(), done, &Ok(()), case) {
+                return;
+            }
+            let bytes = std::fs::read(&path).unwrap_or_default();
+            let mut problems = Vec::new();
+            let mut r = Reader::new(&bytes);
+            match spec::read_int_vec(&mut r, &mut problems) {
+                Ok(iv) => {
+                    let want: Vec<u64> = (0..*items).map(|i| value(i) & mask).collect();
+                    ctx.require(|| "IntVectorWriter.format[document decodes the same content]".to_string(), iv.width == *width as u64 && iv.values == want && r.at_end(), case, || json!({"observed": format!("width {} with {} items, reader at end: {}", iv.width, iv.values.len(), r.at_end()), "expected": format!("width {} with {} items", width, items)}));
+                    ctx.require(|| "IntVectorWriter.format[requirements of the document]".to_string(), problems.is_empty(), case, || json!({"observed": problems}));
+                }
+                Err(e) => {
+                    ctx.require(|| "IntVectorWriter.format[document can decode]".to_string(), false, case, || json!({"observed": e, "problems": problems}));
+                }
+            }
+        }
+        Case::WriterRaw { bits, buf_len, close } => {
+            let done = guard(|| {
+                let mut header: Vec<u64> = Vec::new();
+                let mut w = match buf_len {
+                    Some(b) => RawVectorWriter::with_buf_len(&path, &mut header, *b),
+                    None => RawVectorWriter::new(&path, &mut header),
+                }
+                .map_err(|e| e.to_string())?;
+                for i in 0..*bits {
+                    w.push_bit(value(i / 64) >> (i % 64) & 1 == 1);
+                }
+                if *close {
+                    w.close().map_err(|e| e.to_string())?;
+                }
+                drop(w);
+                Ok::<(), String>(())
+            });
+            if !ctx.expect(|| "RawVectorWriter.file[written]".to_string(), done, &Ok(()), case) {
+                return;
+            }
+            let bytes = std::fs::read(&path).unwrap_or_default();
+            let mut problems = Vec::new();
+            let mut r = Reader::new(&bytes);
+            match spec::read_raw(&mut r, &mut problems) {
+                Ok(raw) => {
+                    let want: Vec<bool> = (0..*bits).map(|i| value(i / 64) >> (i % 64) & 1 == 1).collect();
+                    ctx.require(|| "RawVectorWriter.format[document decodes the same content]".to_string(), raw.to_bools() == want && r.at_end(), case, || json!({"observed": format!("{} bits, reader at end: {}", raw.to_bools().len(), r.at_end()), "expected": format!("{} bits", bits)}));
+                    ctx.require(|| "RawVectorWriter.format[requirements of the document]".to_string(), problems.is_empty(), case, || json!({"observed": problems}));
+                }
+                Err(e) => {
+                    ctx.require(|| "RawVectorWriter.format[document can decode]".to_string(), false, case, || json!({"observed": e, "problems": problems}));
+                }
+            }
+        }
+        _ => unreachable!(),
+    }
+    let _ = std::fs::remove_file(&path);
+}
+
 fn check_doc(ctx: &mut Ctx, c: &Case) {
     let case = || serde_json::to_value(c).unwrap();
     ctx.announce(case);
     ctx.nontrivial(c);
+    if matches!(c, Case::WriterInt { .. } | Case::WriterRaw { .. }) {
+        check_writer_file(ctx, c);
+        return;
+    }
     match c {
+        Case::WriterInt { .. } | Case::WriterRaw { .. } => unreachable!(),
         Case::Written(d) => check_written(ctx, d),
         Case::DocRaw(bits) => {
             let m = bits.model();
@@ -551,6 +642,23 @@ fn explore(ctx: &mut Ctx) {
         for a in 0..8u8 {
             docs.push(Case::WmSupports { values: v.clone(), masks: vec![a, 7 - a] });
             docs.push(Case::WmSupports { values: v.clone(), masks: vec![a] });
+        }
+    }
+    // Files left by the buffered writers (closed explicitly or by drop), incl. writers that received nothing.
+    for width in [1usize, 7, 13, 32, 63, 64] {
+        for items in [0usize, 1, 2, 9, 65, 200] {
+            for buf_items in [None, Some(0), Some(1), Some(64)] {
+                for close in [true, false] {
+                    docs.push(Case::WriterInt { width, items, buf_items, close });
+                }
+            }
+        }
+    }
+    for bits in [0usize, 1, 63, 64, 65, 128, 1000] {
+        for buf_len in [None, Some(0), Some(64), Some(192)] {
+            for close in [true, false] {
+                docs.push(Case::WriterRaw { bits, buf_len, close });
+            }
         }
     }
     docs.push(Case::DocBasic(vec![], vec![], String::new()));
